@@ -145,7 +145,7 @@ def stage_b(ctx, front, cfgp, label, max_len=30, max_paths=None, devs=(), vmap=N
 NAMES = [['a'], ['a', 'b'], ['a', 'b', 'c'], ['a', 'c'], ['b'], ['a', 'b', 'd']]
 
 
-def random_schedule(rng, front, n_events, weights=None, junk=None, verdicts=None, envs=('bare', 'lp', 'lph'),
+def random_schedule(rng, front, n_events, weights=None, junk=None, verdicts=None, envs=('bare', 'lp', 'lph', 'lpo'),
                     max_entries=6):
     """Generates stimuli on the fly while running the real code (the driver needs to know which
     validators are in flight and which timers are due). Returns the recorded trace record."""
@@ -205,10 +205,11 @@ def random_schedule(rng, front, n_events, weights=None, junk=None, verdicts=None
                     t = rng.choice(entries)['t']
                 else:
                     t = {'name': rng.choice(NAMES), 'cbp': False, 'dig': 0, 'life': 1}
-                emit({'a': a, 't': t, 'r': rng.randint(1, 5), 'env': rng.choice(['lp', 'lph'])})
+                emit({'a': a, 't': t, 'r': rng.randint(1, 5), 'env': rng.choice(['lp', 'lph', 'lpo'])})
             elif a == 'RecvJunk':
                 hx = (junk(rng) if junk else rng.choice(JUNK_BASIC))
-                emit({'a': a, 'j': 'junk', 'hex': hx})
+                hx, jc = hx if isinstance(hx, tuple) else (hx, 'junk')
+                emit({'a': a, 'j': jc, 'hex': hx})
             elif a == 'ValFinish':
                 emit({'a': a, 'e': rng.choice(pend_val), 'v': rng.choice(verdicts)})
             elif a == 'Time':
